@@ -286,6 +286,18 @@ class Check(CheckBase):
                     world.finding('C06', f'a Repository object re-unlocked as {u} restores files of snapshots made under other keys',
                                   extra=sorted(set(res.files or []) - set(own_paths))[:3])
                 shutil.rmtree(target, ignore_errors=True)
+            # -- 3c. the same object, now holding keys it has unlocked before: a key it knows with a password that is not that
+            #        key's (another user's, an empty one, a wrong one) must still be refused
+            for u in users:
+                for label, pw in [('another user\'s password', world.users[v].password) for v in users
+                                  if world.users[v].password != world.users[u].password][:2] + [('a wrong password', b'nope'), ('an empty password', b'')]:
+                    world.count('reunlock_attempts_on_a_reused_object')
+                    try:
+                        with rep_.capture():
+                            await shared_obj.unlock(password=pw, key=world.users[u].key)
+                    except Exception:
+                        continue
+                    world.finding('C06', f'a Repository object that has unlocked the key of {u} before accepts that key again with {label}')
             # -- 4. dedup against same-family users, destructive commands confined ------------------------------
             for u in users:
                 fam = world.users[u].family
